@@ -222,13 +222,13 @@ func init() {
 					sec = "(Some " + coqObserved(*o2, nil) + ")"
 				}
 				ci := sc.info("splitcase")
-				ci.Extra = map[string]any{"k": k, "gen_seed": genSeed, "small_pool": cfg.SmallPool, "directed": directed, "directed_kind": directedKind, "store_kind": int(sc.Kind), "first": shortObserved(o1)}
+				ci.extra(map[string]any{"k": k, "gen_seed": genSeed, "small_pool": cfg.SmallPool, "directed": directed, "directed_kind": directedKind, "store_kind": int(sc.Kind), "first": shortObserved(o1)})
 				if o2 != nil {
 					ci.Extra["second"] = shortObserved(*o2)
 				}
 				ci.Class = whole.Class
 				ci.Observed = shortObserved(whole)
-				ci.Coq = fmt.Sprintf("(mk_splitcase %s %d%%nat %s %s %s %s %s %s %s %s)", dumpProgram(pr.Value), k, coqVars(sc.Vars),
+				ci.Coq = fmt.Sprintf("(mk_splitcase %s %d%%nat %s %s %s %s %s %s %s %s)", sc.treeOf(pr), k, coqVars(sc.Vars),
 					coqBalances(sc.Bal), coqMeta(sc.Meta), coqBool(sc.Flag), coqObserved(whole, nil), coqObserved(o1, nil), coqOptBalances(bal2), sec)
 				c.add(ci)
 			}
@@ -289,7 +289,7 @@ func init() {
 			ci := sc.info("c10case")
 			ci.Class = class
 			ci.Observed = short
-			ci.Coq = fmt.Sprintf("(mk_c10case %s %s %s %s %s %s)", dumpProgram(pr.Value), coqVars(sc.Vars), coqBalances(sc.Bal), coqMeta(sc.Meta), coqBool(sc.Flag), coqList(obs))
+			ci.Coq = fmt.Sprintf("(mk_c10case %s %s %s %s %s %s)", sc.treeOf(pr), coqVars(sc.Vars), coqBalances(sc.Bal), coqMeta(sc.Meta), coqBool(sc.Flag), coqList(obs))
 			c.add(ci)
 		}
 	}
@@ -428,10 +428,10 @@ func (c *Ctx) c11Case(sc Scenario) {
 	ci := sc.info("c11case")
 	ci.Class = o1.Class
 	ci.Observed = shortObserved(o1)
-	ci.Extra = map[string]any{"second_run": shortObserved(o2), "inputs_unchanged": unchanged, "flag_on": shortObserved(on), "flag_off": shortObserved(off),
-		"concurrent_same": same, "race_free": raceFree}
+	ci.extra(map[string]any{"second_run": shortObserved(o2), "inputs_unchanged": unchanged, "flag_on": shortObserved(on), "flag_off": shortObserved(off),
+		"concurrent_same": same, "race_free": raceFree})
 	pr := parser.Parse(sc.Text)
-	ic := fmt.Sprintf("(mk_icase %s %s %s %s SKStatic None %s %s)", dumpProgram(pr.Value), coqVars(sc.Vars), coqBalances(sc.Bal), coqMeta(sc.Meta), coqBool(sc.Flag), coqObserved(o1, logged.log))
+	ic := fmt.Sprintf("(mk_icase %s %s %s %s SKStatic None %s %s)", sc.treeOf(pr), coqVars(sc.Vars), coqBalances(sc.Bal), coqMeta(sc.Meta), coqBool(sc.Flag), coqObserved(o1, logged.log))
 	ci.Coq = fmt.Sprintf("(mk_c11case %s %s %s %s %s %s %s %s)", ic, coqObserved(o2, nil), coqBool(unchanged), coqObserved(on, nil), coqObserved(off, nil), coqBool(usesFn), coqBool(same), coqBool(raceFree))
 	c.add(ci)
 	if !raceFree {
